@@ -8,6 +8,8 @@ CONSTANTS
   MaxMig = 2
   Serial = FALSE
   Requesters = {1, 2}
+  MCPages <- Pages1
+  SkipZero = FALSE
   AcceptGuard = "handling"
 PROPERTIES Progress
 CHECK_DEADLOCK FALSE
